@@ -69,6 +69,11 @@ def dump_layout(r, name):
              % (name, nasm, nsc, name, W, ncol, name, W, name, W, name, W, name, W))
     # one kernel decision per layout: the memory of one evaluation is released before the next starts
     L.append("set_option maxRecDepth 1000000 in\ntheorem cert_%s_ok : cert_%s = true := by decide +kernel\n" % (name, name))
+    # consequence for C02: conduction between adjacent gap cells (any antisymmetric pair exchange) cancels over this gap mesh
+    L.append("theorem exch_%s {K : Type} [Field K] [LinearOrder K] [IsStrictOrderedRing K] (f : Nat → Nat → K)\n"
+             "    (hf : ∀ i j, f j i = - f i j) :\n"
+             "    ∑ c ∈ Finset.range %d, ((row adj_%s %d 3 c).map (f c)).sum = 0 :=\n"
+             "  Dassh.Exchange.gap_exchange_zero cert_%s_ok f hf\n" % (name, nsc, name, W, name))
     ok = tb.roundtrip_ok(asm_tab, W, 0) and tb.roundtrip_ok(core._sc_adj, W, 0)
     return "\n".join(L), ok
 
@@ -109,10 +114,11 @@ def run(ctx):
         layouts.append(("big%d" % j, sub))
     reps = 3 if ctx.thorough else 1
     NCHUNK = 16
-    header = ["-- GENERATED by /verif/harness (T2 table dump of real dassh.Core objects).", "import Dassh.Lemmas.Table", ""]
+    header = ["-- GENERATED by /verif/harness (T2 table dump of real dassh.Core objects).", "import Dassh.Lemmas.Exchange", ""]
     chunks = [[] for _ in range(NCHUNK)]
     chunk_names = [[] for _ in range(NCHUNK)]
     names = []
+    full = None
     areas = {}
     gen_rng = random.Random(9000)        # table generation is seed independent (keeps the Lean build cached)
     for tag, positions in layouts:
@@ -137,6 +143,8 @@ def run(ctx):
             chunks[k].append(txt)
             chunk_names[k].append(name)
             names.append(name)
+            if name == "s7_126_0":
+                full = (k, name, int(r.core.n_sc))
             numeric_oracle(ctx, r, case, positions)
             if len(set(a['type'] for a in case['assignment'])) > 1:
                 # the same layout, pitch and outer duct with ONE mesh everywhere must have the same total gap area
@@ -175,6 +183,12 @@ def run(ctx):
     agg += ["", "namespace Dassh.Gen.C09", "",
             "/-- number of layouts dumped in this run -/", "def nLayouts : Nat := %d" % len(names), "",
             "def allCerts : List Bool := %s" % " ++ ".join("Dassh.Gen.C09_%d.certs" % k for k in range(NCHUNK)), "",
+            "/-- the full 7-assembly core (layout s7_126): number of gap cells, adjacency table, exchange instance -/",
+            "def fullNsc : Nat := %d" % (full[2] if full else 0),
+            "def fullAdj : Nat := %s" % ("Dassh.Gen.C09_%d.adj_%s" % (full[0], full[1]) if full else "0"),
+            ("theorem full_exch {K : Type} [Field K] [LinearOrder K] [IsStrictOrderedRing K] (f : Nat → Nat → K) (hf : ∀ i j, f j i = - f i j) :\n"
+             "    ∑ c ∈ Finset.range fullNsc, ((Dassh.Table.row fullAdj 12 3 c).map (f c)).sum = 0 :=\n  Dassh.Gen.C09_%d.exch_%s f hf"
+             % (full[0], full[1])) if full else "", "",
             "theorem all_ok : allCerts.all (· = true) = true := by",
             "  simp only [allCerts, List.all_append, Bool.and_eq_true]",
             "  exact ⟨%s⟩" % ", ".join("Dassh.Gen.C09_%d.certs_ok" % k for k in range(NCHUNK)) if NCHUNK == 1 else
